@@ -217,6 +217,9 @@ def run_shape(args):
 def variant_text(v):
     val = v["hasValue"]
     a, b = ("Age/5" if val else "Red"), ("Green" if val else "Blue")
+    sib = v.get("sib", "other")
+    if sib != "other":       # definition Xxx: (Label/#, Label/Mid, (Square, Triangle)); value before / after "Mid"
+        a, b = ("Label/Zed" if sib == "sameBefore" else "Label/Abc"), "Label/Mid"
     c, d = "Square", "Triangle"
     if v["mut"] == "innerWrong":
         c = "Circle"
@@ -224,7 +227,7 @@ def variant_text(v):
     items = []
     for x in v["outer"]:
         if x == "a":
-            items.append("Age/6" if (v["mut"] == "wrongValue") else a)
+            items.append(("Age/6" if sib == "other" else "Label/Other") if (v["mut"] == "wrongValue") else a)
         elif x == "b":
             if v["mut"] == "missingTag":
                 continue
@@ -234,6 +237,8 @@ def variant_text(v):
     if v["mut"] == "extraTag":
         items.append("Item")
     tag = "Def-expand/Vvv/5" if val else "Def-expand/Www"
+    if sib != "other":
+        tag = "Def-expand/Xxx/" + a.split("/")[1]
     content = "(" + ", ".join(items) + ")"
     return "(%s, %s)" % ((tag, content) if v["defFirst"] else (content, tag))
 
@@ -244,6 +249,7 @@ def run_variant(rec):
     schema = _G["schema"]
     if "vdd" not in _G:
         _G["vdd"] = DefinitionDict("(Definition/Vvv/#, (Age/#, Green, (Square, Triangle))), "
+                                   "(Definition/Xxx/#, (Label/#, Label/Mid, (Square, Triangle))), "
                                    "(Definition/Www, (Red, Blue, (Square, Triangle)))", schema)
     text = variant_text(rec["v"])
     try:
